@@ -31,8 +31,9 @@ type Store struct {
 	badgerDir string
 	bundleDir string
 
-	// pushMutex serializes Push, which reads a BundleItem first and inserts or updates it afterwards.
-	pushMutex sync.Mutex
+	// writeMutex serializes all writing operations. Push reads a BundleItem first and inserts or updates it
+	// afterwards. Furthermore, concurrent transactions for different BundleItems conflict within the shared indices.
+	writeMutex sync.Mutex
 }
 
 // NewStore creates a new Store or opens an existing Store from the given path.
@@ -75,8 +76,8 @@ func (s *Store) Close() error {
 
 // Push a new/received Bundle to the Store.
 func (s *Store) Push(b bpv7.Bundle) error {
-	s.pushMutex.Lock()
-	defer s.pushMutex.Unlock()
+	s.writeMutex.Lock()
+	defer s.writeMutex.Unlock()
 
 	bi := newBundleItem(b, s.bundleDir)
 
@@ -139,6 +140,9 @@ func (s *Store) Push(b bpv7.Bundle) error {
 
 // Update an existing BundleItem.
 func (s *Store) Update(bi BundleItem) error {
+	s.writeMutex.Lock()
+	defer s.writeMutex.Unlock()
+
 	log.WithFields(log.Fields{
 		"bundle": bi.Id,
 	}).Debug("Store updates BundleItem")
@@ -148,6 +152,9 @@ func (s *Store) Update(bi BundleItem) error {
 
 // Delete a BundleItem, represented by the "scrubbed" BundleID.
 func (s *Store) Delete(bid bpv7.BundleID) error {
+	s.writeMutex.Lock()
+	defer s.writeMutex.Unlock()
+
 	if bi, err := s.QueryId(bid); err == nil {
 		log.WithFields(log.Fields{
 			"bundle": bid,
